@@ -317,7 +317,8 @@ fn c13_enum<S: Shape>(max_set: usize, lookbehind: bool, ks: Option<bool>) {
                         assert!(r.is_ok(), "search returns Ok");
                         if inv && straddle {
                             // role split for a known finding (see known-findings.json)
-                            if !log_is_model(&sink, &want, evcap::<S>()) {
+                            // (C16 instantiations check interruption only, on the other tables)
+                            if ks.is_none() && !log_is_model(&sink, &want, evcap::<S>()) {
                                 assert!(false, "inverted multi-line search: a match that starts inside the lines covered by the previous match is lost");
                             }
                         } else {
